@@ -99,6 +99,8 @@ class Gamma:
             s = "[*%s]" % inner if k == "l" else "(*%s,)" % inner if k == "t" else "{**%s}" % inner
             self.ids[i] = ("sl", s)
             return s
+        if t == "sn":
+            return "snapshot(%s)" % (self.term(tm["e"][0], depth + 1) if tm["e"] else "")
         if t in ("lt", "tt"):
             xs = [self.term(x, depth + 1) for x in tm["e"]]
             op, cl = ("[", "]") if t == "lt" else ("(", ")")
@@ -226,6 +228,8 @@ def alpha(node, g: Gamma):
             return {"t": "lit", "v": a, "canon": False, "id": i}
         if isinstance(n, ast.Call) and isinstance(n.func, ast.Name):
             f = n.func.id
+            if f == "snapshot":
+                return {"t": "sn", "e": [go(a) for a in n.args[:1]]}
             if f == "Is" and len(n.args) == 1 and _ifexp_id(n.args[0]):
                 i, body = _ifexp_id(n.args[0])
                 ids[i] = ast.dump(n)
@@ -302,6 +306,8 @@ def ev(tm):
     t = tm["t"]
     if t in ("lit", "is", "fs"):
         return {"t": "i", "v": tm["v"]}
+    if t == "sn":
+        return ev(tm["e"][0]) if tm["e"] else {"t": "i", "v": 99}
     if t in ("ht", "sl"):
         return tm["val"]
     if t == "lt":
@@ -326,7 +332,7 @@ def ev(tm):
 
 def managed_eq(tm, v):
     t = tm["t"]
-    if t in ("is", "fs", "sl"):
+    if t in ("is", "fs", "sl", "sn"):
         return True
     if t in ("lit", "ht"):
         return veq(ev(tm), v)
